@@ -27,6 +27,6 @@ fn line(d: &SolarDay, first: bool, _prev: Option<&SolarDay>) -> String {
 }
 
 pub fn run(ctx: &Ctx) -> usize {
-  let wins = day_windows(ctx, 701, 60, 300, 2);
+  let wins = day_windows(ctx, 701, 300, 300, 2);
   walk_days(ctx, "Trace_C07", wins, line)
 }
